@@ -43,6 +43,7 @@ def install_models(ex):
             turn = x.val.tag[1].tag[2] if isinstance(x.val, Opaque) else None
             r = e.fresh('hash_mod_weight')
             e.assume(r.e < w.e if not w.concrete else r.e < w.e)
+            mw = e.fresh('hash_modulus'); e.assume(mw.e == w.e)     # the modulus the code really used (replay realises the residue for it)
             e.residue = r; e.residue_turn = turn; e.residue_weight = w
             return BigV('u64', r)
         raise Unmodelled('BigUint remainder of unexpected operands')
@@ -227,11 +228,12 @@ def ex_residue_weight_is(res, lw):
 
 
 # ---------------------------------------------------------------------------------------------------- replay
-def replay_src(N, flags, mode, perm, weights, view, freq, residue=None):
+def replay_src(N, flags, mode, perm, weights, view, freq, residue=None, modulus=None):
     flags_s = ', '.join('true' if f else 'false' for f in flags)
     perm_s = ', '.join(str(i) for i in perm)
     w_s = ', '.join(f'{w}u64' for w in weights)
     lw = sum(w for w, f in zip(weights, flags) if f)
+    if modulus: lw = modulus
     if mode == 'Weighted' and residue is not None:
         pick = f'''
     // the abstract residue chosen by the solver is realised with the real Keccak: smallest turn with keccak(turn) mod {lw} == {residue}
@@ -303,10 +305,11 @@ def make_replay(rep, key, text, model, N, flags, mode, perm, ws, extra_syms, n):
         return default
     weights = [max(1, val(f'w{i}')) for i in range(N)]
     view = val('view', 0); freq = val('frequency', 1)
-    residue = None
+    residue = None; modulus = None
     for d in model.decls():
         if d.name().startswith('hash_mod_weight'): residue = model[d].as_long()
-    src = replay_src(N, flags, mode, perm, weights, view, freq, residue)
+        if d.name().startswith('hash_modulus'): modulus = model[d].as_long()
+    src = replay_src(N, flags, mode, perm, weights, view, freq, residue, modulus)
     name = f'c11_{n}'
     r = replay.run_replay(name, src)
     rep.replayed += 1
